@@ -333,3 +333,42 @@ Fixpoint raw_write_fmt (w : writer) (frags : list (list N)) : writer * (unit + e
 (* the answers of the accessors, for the proofs of Proofs/AutoGen.v *)
 Definition auto_into_inner (m : amode) (s : sbytes) (w : writer) : writer := w.
 Definition auto_is_terminal (cf : acfg) (m : amode) : bool := ac_tty cf.
+
+(* ---- the lock discipline (C19), vocabulary of the second translation `gl_*` in Generated/AutoFn.v ----
+   A raw stream that records WHEN its lock is taken and given back, as positions in the inner
+   writer's call history ([w_calls], which already records every inner write / flush in order):
+   `as_locked_write()` appends [LAcq n] and hands out a guard = a view of the writer inside; the
+   guard's destructor, run at the end of the temporary scope the guard was created in, appends
+   [LRel n']; every inner call made in between lies at the positions n .. n'-1 of the history. *)
+Inductive lmark : Set := LAcq (ncalls : nat) | LRel (ncalls : nat).
+Record lraw : Set := mkLR { lr_w : writer; lr_log : list lmark }.
+Definition set_lr_w (x : lraw) (w : writer) : lraw := mkLR w (lr_log x).
+Definition lr_acquire (x : lraw) : lraw := mkLR (lr_w x) (lr_log x ++ [LAcq (length (w_calls (lr_w x)))]).
+Definition lr_release (x : lraw) : lraw := mkLR (lr_w x) (lr_log x ++ [LRel (length (w_calls (lr_w x)))]).
+
+Record lsstream : Set := mkLSS { lss_raw : lraw; lss_state : sbytes }.
+Definition set_lss_raw (x : lsstream) (r : lraw) : lsstream := mkLSS r (lss_state x).
+Definition set_lss_state (x : lsstream) (s : sbytes) : lsstream := mkLSS (lss_raw x) s.
+Inductive lsinner : Set := LSIPass (w : lraw) | LSIStrip (x : lsstream).
+Record lastream : Set := mkLAS { las_inner : lsinner }.
+Definition set_las_inner (a : lastream) (i : lsinner) : lastream := mkLAS i.
+
+(* forgetting the lock log gives the streams of the first translation *)
+Definition lss_erase (x : lsstream) : sstream := mkSS (lr_w (lss_raw x)) (lss_state x).
+Definition las_erase (a : lastream) : astream :=
+  match las_inner a with
+  | LSIPass w => mkAStream (SIPass (lr_w w))
+  | LSIStrip x => mkAStream (SIStrip (lss_erase x))
+  end.
+Definition las_raw (a : lastream) : lraw :=
+  match las_inner a with LSIPass w => w | LSIStrip x => lss_raw x end.
+(* a stream value with the lock log [log] over the plain stream [a] *)
+Definition las_with (log : list lmark) (a : astream) : lastream :=
+  match as_inner a with
+  | SIPass w => mkLAS (LSIPass (mkLR w log))
+  | SIStrip x => mkLAS (LSIStrip (mkLSS (mkLR (ss_raw x) log) (ss_state x)))
+  end.
+(* "the call took the lock once, around all its inner calls": the log grows by one Acquire at
+   the length of the history before the call and one Release at its length after the call *)
+Definition lock_once (log : list lmark) (before after : writer) : list lmark :=
+  log ++ [LAcq (length (w_calls before)); LRel (length (w_calls after))].
